@@ -359,6 +359,29 @@ fn exec_inner(src: &Dyn, objs: &[&Dyn], kind: &OpKind, ctx: &ExecCtx) -> Answer 
       Answer::Map(src.map(&MapOptions::new(*columns)).as_ref().map(MapAns::from_map))
     }
     OpKind::Stream { columns, abort_at } => do_stream(src, *columns, *abort_at, ctx),
+    OpKind::DebugFmt { limit } => {
+      struct Sink {
+        left: Option<usize>,
+      }
+      impl std::fmt::Write for Sink {
+        fn write_str(&mut self, s: &str) -> std::fmt::Result {
+          if let Some(l) = self.left.as_mut() {
+            if s.len() > *l {
+              *l = 0;
+              return Err(std::fmt::Error);
+            }
+            *l -= s.len();
+          }
+          Ok(())
+        }
+      }
+      let mut sink = Sink {
+        left: limit.map(|l| l as usize),
+      };
+      let _ = std::fmt::Write::write_fmt(&mut sink, format_args!("{:?}", src));
+      // constant answer: only the state left behind matters
+      Answer::Size(0)
+    }
     OpKind::Hash => Answer::Hash(fx_hash(src)),
     OpKind::UpdateHash => {
       let mut h = FxHasher::default();
